@@ -68,6 +68,7 @@ type Conn struct {
 	writeBuf       []byte
 	writeHeaderBuf [8]byte
 	writeHeader    header
+	closeSent      bool // guarded by writeFrameMu
 
 	closeReadMu   sync.Mutex
 	closeReadCtx  context.Context
